@@ -149,8 +149,13 @@ func (a *Actor) Prelude() error {
 		}
 	}
 	a.Contracts = append(a.Contracts, caddr)
+	cdata := append([]byte{0}, caddr.Bytes()...)
 	for i, o := range []int{Zone, Prime, Zone, Prime, Zone, Zone} {
-		if _, err := a.MineOne(MineOpts{Order: o, Coinbase: a.quai[5].Addr}); err != nil {
+		cb := a.quai[5].Addr
+		if i%2 == 1 {
+			cb = a.qi[2].Addr
+		}
+		if _, err := a.MineOne(MineOpts{Order: o, Coinbase: cb, Data: cdata}); err != nil {
 			return fmt.Errorf("prelude block %d: %w", 7+i, err)
 		}
 	}
